@@ -6,6 +6,7 @@ use std::io::{BufRead, Write};
 mod c02;
 mod c03;
 mod c04;
+mod c05;
 mod agentkit;
 mod c08;
 mod c09;
@@ -60,6 +61,7 @@ fn run_lines() {
             "ingest" => c10::ingest(&mut t),
             "uni" => c16::uni(&mut t),
             "serve" => c16::serve(&mut t),
+            "srv" => c05::serve(&mut t),
             "partners" => c16::partners(&mut t),
             "bcast" => c16::bcast(&mut t),
             "wire" => c09::wire(&mut t),
